@@ -346,3 +346,11 @@ def d4(cx: Cx, ob: Ob) -> None:
             ob.site(f"{fn.where} {fn.qualname}", "header row reaches a write call")
         elif nexts:
             ob.violate(fn.qualname, fn.where, "the header row that was read is never written back", detail="header-lost")
+
+
+
+@obligation("C16-X2", "state closure (shared with C05): all derived converter state is maintained by _index, lookup tables are never rebound after construction, and no query method writes converter state (no stale caches)", floor=5)
+def x2(cx: Cx, ob: Ob) -> None:
+    from ..rules import state_closure
+
+    state_closure(cx, ob)
